@@ -433,6 +433,8 @@ def _try_value(x, d):
     `None` or an error handed on by `from_residual` never continues (this is what a helper that returns a Result
     looks like once it is read at its call site)."""
     x = strip(x)
+    if x[0] == "call" and x[1] in ("std::option::Option::ok_or", "std::option::Option::ok_or_else") and x[2]:
+        return "some!(%s)" % canon(x[2][0], d)      # the continuing value of `opt.ok_or(..)?` is the payload of `opt`
     if x[0] == "agg" and x[1] == "adt" and isinstance(x[2], str):
         if (x[2].endswith("::Ok") or x[2].endswith("::Some")) and len(x[3]) == 1:
             return canon(x[3][0][1], d)
